@@ -171,6 +171,31 @@ func (e c13Engine) RunSeed(tier string, seed uint64, idx int) *core.Result {
 	}
 	res := &core.Result{Seed: seed, Probes: map[string]int{"intact_total": 0, "intact_opened": 0}, Faults: map[string]int{}}
 	sc := genLib(rng, tier)
+	if rng.Chance(1, 8) {
+		// tune the target body so that its stored (level 0) stream fills whole
+		// 4096- or 512-byte blocks: what is appended then starts on a block edge
+		t := &sc.Ops[len(sc.Ops)-1]
+		t.Level = 0
+		if t.Body.Kind == "empty" || t.Body.Kind == "corpus" {
+			t.Body = &bodySpec{Kind: "random", Len: rng.Range(5000, 20000), Seed: rng.U64()}
+		}
+		if t.Body.Len > 70000 {
+			t.Body.Len = 70000
+		}
+		probe := &libScenario{Hash: sc.Hash, Keys: sc.Keys, Ops: []libOp{*t}}
+		pr := newLibRun(probe, &core.Result{Probes: map[string]int{}, Faults: map[string]int{}})
+		pr.doPut(*t, func() *libScenario { return probe })
+		if img, ok := pr.w.GetFile(pr.paths[t.Key]); ok {
+			block := []int{4096, 4096, 512}[rng.Intn(3)]
+			rem := (len(img) - 3*pr.h.Size()) % block
+			if t.Body.Len > rem+1 {
+				b := *t.Body
+				b.Len -= rem
+				t.Body = &b
+				res.Probes["body_stream_tuned_to_block_size"]++
+			}
+		}
+	}
 	r := newLibRun(sc, res)
 	core.Current, core.CurrentSig = c13Scenario{Kind: "lib", Lib: sc}, "lib"
 	// base workload, oracle after every op
